@@ -328,7 +328,7 @@ def rule_W(ck, lib):
                     okn = False
             ck.judge(okn and seen_none, "C01-W", "%s:child@%s:none-is-undefined-header" % (kind, n_child),
                      "unknown mnemonic leaves the parser with UndefinedHeader", "unknown mnemonic does not leave the header parser with Err(UndefinedHeader)", site)
-    ck.floor("C01-W", "Node::child call sites in the header parsers", n_child, 3)
+    ck.floor("C01-W", "Node::child call sites in the header parsers", n_child, 2)
 
 
 # ------------------------------------------------------------------ C01-S: the macro's own spelling rule
